@@ -287,6 +287,12 @@ func runC20Config(c c20Cfg) (msg, key, outcome string) {
 		if !strings.Contains(string(rest), "DONE <nil>") {
 			return "after Shutdown the helper reported " + strings.TrimSpace(string(rest)) + " " + stderr.String(), "symptom=shutdown-error " + cfgKey, ""
 		}
+		if sel >= 0 && pathFile != "" {
+			// ... and stays untouched when serving ends (teardown must not clean up an address it never bound)
+			if b, err := os.ReadFile(pathFile); err != nil || string(b) != "precious" {
+				return fmt.Sprintf("the service was activated on descriptor %d; after Shutdown the filesystem node named by the (ignored) address argument is gone or changed: %v %q", 3+sel, err, b), "symptom=address-argument-not-ignored " + cfgKey, ""
+			}
+		}
 		if sel >= 0 {
 			return "", "", fmt.Sprintf("activation/fd%d", 3+sel)
 		}
